@@ -272,8 +272,7 @@ CONTRACTS = {
 # C04: find_stackings
 # =====================================================================================================================
 CLASSES["KDTree"] = {"kind": "object", "fields": {"points": "list[tuple[real,real,real]]"}}
-NBASE = max(len(v) for v in T.BASE_ATOMS.values())
-SPEC_CONSTS.update({"NBASE": NBASE, "EPS": 1e-6, "D_MAX": T.STACK_MAX_DIST, "NN_MAX": T.STACK_MAX_NN, "VN_MAX": T.STACK_MAX_VN})
+SPEC_CONSTS.update({"D_MAX": T.STACK_MAX_DIST, "NN_MAX": T.STACK_MAX_NN, "VN_MAX": T.STACK_MAX_VN})
 
 UFUNS.update({
     # abbreviations with explicit definitions (LEMMAS of kind "definition" below); all are functions of frozen residues
